@@ -459,6 +459,7 @@ type Recorder struct {
 	Events  []*OutEvent
 	FailAt  int // 1-based call index that fails (0: never)
 	FailAll bool
+	SlowMs  int // every write takes this many simulated milliseconds (0: none)
 	Calls   int
 	OnEvent func(*OutEvent)
 	NoPoint bool
@@ -478,6 +479,10 @@ func (e *encodeErr) Error() string { return fmt.Sprintf("injected write error at
 func (r *Recorder) Encode(v any) error {
 	if !r.NoPoint {
 		simrt.Point("encode")
+	}
+	if r.SlowMs > 0 && !r.NoPoint {
+		// a slow event sink: the write itself takes simulated time
+		simrt.Sleep(time.Duration(r.SlowMs)*time.Millisecond, "encode.slow")
 	}
 	r.Calls++
 	if r.FailAt > 0 && (r.Calls == r.FailAt || r.FailAll && r.Calls >= r.FailAt) {
